@@ -1186,6 +1186,8 @@ package gorums
 //@   opt semaphore=obj
 //@   opt optional-hooks=1
 
+// C04.f: the reply queue is made by this NodeStream call: replies of this connection's handlers can
+// only be written to this connection (a queue shared by connections delivers replies to other clients).
 // C04.d: a handler that has released runs concurrently with later ones, so the request object
 // handed to a handler is never handed to (or reused for) a later one: ghost set `handed`.
 //@ func (*orderingServer).NodeStream
@@ -1209,6 +1211,7 @@ package gorums
 //@     after set recvs = recvs + 1
 //@   on go "handler"
 //@     assert[C04.a,C03.c] started == awaited && heldobj(addr(mut)) && arg1 == req && arg2 == finished
+//@     assert[C04.f,C05.e] !wasalloc(finished)
 //@     assert[C04.b] fresh(arg0.once) && arg0.mut == addr(mut) && arg0.Context == srvCtx(srv)
 //@     assert[C04.d] arg1 != nil && !handed[arg1]
 //@     set handed = store(handed, arg1, true)
@@ -1405,8 +1408,20 @@ package gorums
 //@   ensures[C14.g] result1 == nil ==> result0 != nil && result0.id == id && result0.addr == tcpString(resolved(addr)) && !wasalloc(result0)
 //@   ensures[C14.g] result1 != nil ==> result0 == nil
 
+// Generated ids are a function of the RESOLVED address (two spellings of one address are one node,
+// C14.g / C03.d); that FNV-1a is a function of the bytes written to it is assumed at Sum32.
+//@ specfun addrHash(Str) Int
 //@ func NewRawNode
-//@   props C14
+//@   props C14 C03
+//@   ghost hashed Str = ""
+//@   ghost nwrite Int = 0
+//@   on call "h.Write"
+//@     after set hashed = strsrc(arg0)
+//@     after set nwrite = nwrite + 1
+//@   on call "h.Sum32"
+//@     assert[C14.g] nwrite == 1
+//@     after assume res0 == addrHash(hashed)
+//@   ensures[C14.g] result1 == nil ==> result0.id == addrHash(result0.addr)
 //@   ensures[C14.f] forall(n, "*RawNode", wasalloc(n) ==> n.id == old(n.id) && n.addr == old(n.addr) && n.mgr == old(n.mgr) && n.channel == old(n.channel))
 //@   ensures[C14.g] result1 == nil ==> result0 != nil && result0.addr == tcpString(resolved(addr)) && !wasalloc(result0)
 //@   ensures[C14.g] result1 != nil ==> result0 == nil
